@@ -2,8 +2,8 @@ package c15
 
 import (
 	"fmt"
-	"reflect"
 	"math/big"
+	"reflect"
 	"sort"
 	"strconv"
 	"strings"
@@ -89,7 +89,11 @@ func (x *descr) table(t *schema.Table) {
 			x.put(cp+".null", fmt.Sprint(c.Type.Null))
 		}
 		x.put(cp+".default", x.expr(c.Default, c))
-		x.attrs(cp+".attrs", c.Attrs, nil)
+		var sa []schema.Attr
+		if t.Schema != nil {
+			sa = t.Schema.Attrs
+		}
+		x.attrs(cp+".attrs", c.Attrs, nil, t.Attrs, sa)
 	}
 	if t.PrimaryKey != nil {
 		x.index(p+".pk", t.PrimaryKey, true)
@@ -134,7 +138,7 @@ func (x *descr) table(t *schema.Table) {
 		x.put(kp+".expr", strconv.Quote(ck.Expr))
 		x.attrs(kp+".attrs", ck.Attrs, nil)
 		return true
-	})
+	}, tableParent(t))
 }
 
 func colNames(cs []*schema.Column) string {
@@ -246,8 +250,9 @@ func (x *descr) params(t schema.Type) string {
 }
 
 // attrs renders an attribute list as a sorted set. take may consume an attribute (checks).
-func (x *descr) attrs(path string, as []schema.Attr, take func(schema.Attr) bool) {
+func (x *descr) attrs(path string, as []schema.Attr, take func(schema.Attr) bool, parents ...[]schema.Attr) {
 	var out []string
+	var hasCS, hasCO bool
 	for _, a := range as {
 		if _, ok := a.(*schema.Pos); ok {
 			continue // source position of the HCL block: not schema content.
@@ -255,7 +260,52 @@ func (x *descr) attrs(path string, as []schema.Attr, take func(schema.Attr) bool
 		if take != nil && take(a) {
 			continue
 		}
+		if x.norm {
+			switch a := a.(type) {
+			case *schema.GeneratedExpr:
+				// rule generated-type-default
+				ty := strings.ToUpper(a.Type)
+				switch {
+				case x.d.name == "postgres":
+					ty = "STORED"
+				case ty == "":
+					ty = "VIRTUAL"
+				case ty == "PERSISTENT" && x.d.name == "mysql":
+					ty = "STORED"
+				}
+				if ty != a.Type {
+					x.rule("generated-type-default")
+				}
+				out = append(out, fmt.Sprintf("%T{Expr:%q Type:%q}", a, a.Expr, ty))
+				continue
+			case *schema.Charset:
+				hasCS = true
+			case *schema.Collation:
+				hasCO = true
+			}
+		}
 		out = append(out, fmt.Sprintf("%T%s", a, render(reflect.ValueOf(a), x, 0)))
+	}
+	if x.norm && x.d.name == "mysql" {
+		// rule inherited-charset: effective value = own, else the nearest parent's.
+		for _, p := range parents {
+			for _, a := range p {
+				switch a := a.(type) {
+				case *schema.Charset:
+					if !hasCS {
+						hasCS = true
+						x.rule("inherited-charset")
+						out = append(out, fmt.Sprintf("%T%s", a, render(reflect.ValueOf(a), x, 0)))
+					}
+				case *schema.Collation:
+					if !hasCO {
+						hasCO = true
+						x.rule("inherited-charset")
+						out = append(out, fmt.Sprintf("%T%s", a, render(reflect.ValueOf(a), x, 0)))
+					}
+				}
+			}
+		}
 	}
 	sort.Strings(out)
 	x.put(path, "["+strings.Join(out, "; ")+"]")
@@ -411,10 +461,10 @@ func (x *descr) literal(v string, c *schema.Column) string {
 	if hexBitPrefix(v) {
 		return v
 	}
-	if u, ok := wellQuoted(v, '\''); ok && !strings.Contains(u, "\\") {
+	if u, ok := wellQuoted(v, '\''); ok {
 		x.rule("literal-quotes")
 		v = u
-	} else if u, ok := wellQuoted(v, '"'); ok && !strings.Contains(u, "\\") {
+	} else if u, ok := wellQuoted(v, '"'); ok {
 		x.rule("literal-quotes")
 		v = u
 	}
@@ -476,4 +526,11 @@ func pathClass(p string) string {
 		}
 	}
 	return b.String()
+}
+
+func tableParent(t *schema.Table) []schema.Attr {
+	if t.Schema != nil {
+		return t.Schema.Attrs
+	}
+	return nil
 }
